@@ -767,6 +767,10 @@ class C16(PropBase):
             cfg["tz"] = {"offset": rng.choice(["+02:00", "-05:00", "+05:45", "-09:30", "+14:00", "-12:00", "+00:00"])}
         if rng.random() < 0.5:
             cfg["default_time"] = rng.choice(["22:30:15", "12:00:00", "23:59:59", "01:02:03"])
+        if rng.random() < 0.3:
+            # a mode switch given on the command line (with the value the file has anyway) leaves the journal zone and the
+            # default time of the configuration alone
+            cfg[rng.choice(["ov_strict", "ov_audit"])] = False
         txns = common.gen_journal(rng, cfg, {"p_invalid": 0.0, "n_txns": rng.choice([2, 3, 4, 6, 9]), "p_price": 0.15,
                                               "p_opening": 0.05, "p_code": 0.4, "p_desc": 0.5, "p_uuid": 0.5})
         if rng.random() < 0.5 and len(txns) >= 2:
